@@ -1,7 +1,1001 @@
-//! C20 — not built yet.
-use vcore::Ctx;
+//! C20 — the response cache policy is never looser than the data it contains.
+//!
+//! Schema K: 18 object types (public/private x {no hint, 60, 5, 1, no-cache} at type level, varying hints on `id`,
+//! fixed hints on the other fields), reachable through object-, interface- and union-typed fields. The hints are
+//! written once (macro input) and feed both the derive attributes and the reference table. Resolvers are data
+//! driven (a per-request world seed decides concrete types, nulls and list lengths) and record which
+//! (object type, field) pairs produced data; the oracle combines the declared policies of exactly those.
+use async_graphql::{BatchResponse, CacheControl, Context, EmptyMutation, EmptySubscription, Interface, Object, Request, Response, Schema, Union};
+use serde_json::json;
+use std::sync::{Arc, Mutex};
+use std::time::Instant;
+use vcore::{Case, Ctx, Src};
 
-pub fn run(_ctx: &mut Ctx) {
-    eprintln!("C20: check not built yet");
-    std::process::exit(2);
+#[derive(Clone, Copy, PartialEq, Eq, Debug)]
+struct Pol {
+    public: bool,
+    max_age: i32,
+}
+const NONE: Pol = Pol { public: true, max_age: 0 };
+
+impl Pol {
+    fn show(&self) -> String {
+        format!("{}/{}", if self.public { "public" } else { "private" }, if self.max_age == -1 { "no-cache".to_string() } else { self.max_age.to_string() })
+    }
+}
+
+/// the documented meaning of the hint tokens: `private`, `no_cache`, `max_age = N`
+macro_rules! pol {
+    (@acc $p:expr, $m:expr;) => { Pol { public: $p, max_age: $m } };
+    (@acc $p:expr, $m:expr; private $(, $($r:tt)*)?) => { pol!(@acc false, $m; $($($r)*)?) };
+    (@acc $p:expr, $m:expr; no_cache $(, $($r:tt)*)?) => { pol!(@acc $p, -1; $($($r)*)?) };
+    (@acc $p:expr, $m:expr; max_age = $v:literal $(, $($r:tt)*)?) => { pol!(@acc $p, $v; $($($r)*)?) };
+    ($($t:tt)*) => { pol!(@acc true, 0; $($t)*) };
+}
+
+/// The statement's combination: private if any private; no-cache if any no-cache; else the least positive max-age.
+fn combine(ps: &[Pol]) -> Pol {
+    Pol {
+        public: ps.iter().all(|p| p.public),
+        max_age: if ps.iter().any(|p| p.max_age == -1) { -1 } else { ps.iter().map(|p| p.max_age).filter(|m| *m > 0).min().unwrap_or(0) },
+    }
+}
+/// `actual` is at least as restrictive as every policy in `ps`
+fn safe(actual: Pol, ps: &[Pol]) -> bool {
+    if ps.iter().any(|p| !p.public) && actual.public {
+        return false;
+    }
+    if ps.iter().any(|p| p.max_age == -1) {
+        return actual.max_age == -1;
+    }
+    ps.iter().filter(|p| p.max_age > 0).all(|p| actual.max_age <= p.max_age)
+}
+
+// ---------------------------------------------------------------------------------------------------------------
+// world and trace
+
+#[derive(Clone, Copy, Debug)]
+struct Tr {
+    ty: &'static str,
+    field: &'static str,
+    /// the object was reached through at least one interface- or union-typed field
+    abs: bool,
+}
+#[derive(Clone)]
+struct World {
+    /// nothing is null, no list is empty
+    full: bool,
+    trace: Arc<Mutex<Vec<Tr>>>,
+}
+fn mix(h: u64, salt: u64) -> u64 {
+    let mut z = h.wrapping_add(salt.wrapping_mul(0x9e3779b97f4a7c15)).wrapping_add(0x9e3779b97f4a7c15);
+    z = (z ^ (z >> 30)).wrapping_mul(0xbf58476d1ce4e5b9);
+    z = (z ^ (z >> 27)).wrapping_mul(0x94d049bb133111eb);
+    z ^ (z >> 31)
+}
+fn tr(ctx: &Context<'_>, ty: &'static str, field: &'static str, abs: bool) -> bool {
+    let w = ctx.data_unchecked::<World>();
+    w.trace.lock().unwrap().push(Tr { ty, field, abs });
+    w.full
+}
+fn len(full: bool, h: u64) -> u64 {
+    if full {
+        1 + (h >> 5) % 2
+    } else {
+        (h >> 5) % 3
+    }
+}
+fn null(full: bool, h: u64) -> bool {
+    !full && (h >> 11) % 3 == 0
+}
+
+struct TypeM {
+    name: &'static str,
+    pol: Pol,
+    id_pol: Pol,
+    next: &'static str,
+    root: &'static str,
+}
+
+macro_rules! kobj {
+    ($T:ident [$($tcc:tt)*] [$($idcc:tt)*] $N:ident) => {
+        #[derive(Clone, Copy)]
+        struct $T {
+            h: u64,
+            abs: bool,
+        }
+        #[Object(cache_control($($tcc)*))]
+        impl $T {
+            #[graphql(cache_control($($idcc)*))]
+            async fn id(&self, ctx: &Context<'_>) -> i32 {
+                tr(ctx, stringify!($T), "id", self.abs);
+                (self.h % 1000) as i32
+            }
+            async fn plain(&self, ctx: &Context<'_>) -> i32 {
+                tr(ctx, stringify!($T), "plain", self.abs);
+                1
+            }
+            #[graphql(cache_control(max_age = 60))]
+            async fn f60(&self, ctx: &Context<'_>) -> i32 {
+                tr(ctx, stringify!($T), "f60", self.abs);
+                2
+            }
+            #[graphql(cache_control(max_age = 5))]
+            async fn f5(&self, ctx: &Context<'_>) -> i32 {
+                tr(ctx, stringify!($T), "f5", self.abs);
+                3
+            }
+            #[graphql(cache_control(no_cache))]
+            async fn fnc(&self, ctx: &Context<'_>) -> i32 {
+                tr(ctx, stringify!($T), "fnc", self.abs);
+                4
+            }
+            #[graphql(cache_control(private))]
+            async fn fpriv(&self, ctx: &Context<'_>) -> i32 {
+                tr(ctx, stringify!($T), "fpriv", self.abs);
+                5
+            }
+            #[graphql(cache_control(private, max_age = 30))]
+            async fn fpriv30(&self, ctx: &Context<'_>) -> i32 {
+                tr(ctx, stringify!($T), "fpriv30", self.abs);
+                6
+            }
+            async fn obj(&self, ctx: &Context<'_>) -> $N {
+                tr(ctx, stringify!($T), "obj", self.abs);
+                $N { h: mix(self.h, 1), abs: self.abs }
+            }
+            async fn objs(&self, ctx: &Context<'_>) -> Vec<$N> {
+                let full = tr(ctx, stringify!($T), "objs", self.abs);
+                let h = mix(self.h, 2);
+                (0..len(full, h)).map(|k| $N { h: mix(h, k), abs: self.abs }).collect()
+            }
+            async fn opt(&self, ctx: &Context<'_>) -> Option<$N> {
+                let full = tr(ctx, stringify!($T), "opt", self.abs);
+                let h = mix(self.h, 3);
+                if null(full, h) { None } else { Some($N { h, abs: self.abs }) }
+            }
+            #[graphql(cache_control(private))]
+            async fn pobj(&self, ctx: &Context<'_>) -> $N {
+                tr(ctx, stringify!($T), "pobj", self.abs);
+                $N { h: mix(self.h, 4), abs: self.abs }
+            }
+            async fn node(&self, ctx: &Context<'_>) -> Node {
+                tr(ctx, stringify!($T), "node", self.abs);
+                mk_node(mix(self.h, 5))
+            }
+            async fn nodes(&self, ctx: &Context<'_>) -> Vec<Node> {
+                let full = tr(ctx, stringify!($T), "nodes", self.abs);
+                let h = mix(self.h, 6);
+                (0..len(full, h)).map(|k| mk_node(mix(h, k))).collect()
+            }
+            #[graphql(cache_control(max_age = 10))]
+            async fn cnode(&self, ctx: &Context<'_>) -> Option<Node> {
+                let full = tr(ctx, stringify!($T), "cnode", self.abs);
+                let h = mix(self.h, 7);
+                if null(full, h) { None } else { Some(mk_node(h)) }
+            }
+            async fn named(&self, ctx: &Context<'_>) -> Named {
+                tr(ctx, stringify!($T), "named", self.abs);
+                mk_named(mix(self.h, 8))
+            }
+            async fn item(&self, ctx: &Context<'_>) -> Item {
+                tr(ctx, stringify!($T), "item", self.abs);
+                mk_item(mix(self.h, 9))
+            }
+            async fn items(&self, ctx: &Context<'_>) -> Vec<Item> {
+                let full = tr(ctx, stringify!($T), "items", self.abs);
+                let h = mix(self.h, 10);
+                (0..len(full, h)).map(|k| mk_item(mix(h, k))).collect()
+            }
+            async fn thing(&self, ctx: &Context<'_>) -> Option<Thing> {
+                let full = tr(ctx, stringify!($T), "thing", self.abs);
+                let h = mix(self.h, 11);
+                if null(full, h) { None } else { Some(mk_thing(h)) }
+            }
+        }
+    };
+}
+
+macro_rules! kabs {
+    ($E:ident $mk:ident $tbl:ident [$($T:ident),*]) => {
+        const $tbl: &[&str] = &[$(stringify!($T)),*];
+        #[allow(unused_assignments)]
+        fn $mk(h: u64) -> $E {
+            let k = (h >> 17) % $tbl.len() as u64;
+            let mut i = 0u64;
+            $( if k == i { return $E::$T($T { h, abs: true }); } i += 1; )*
+            unreachable!()
+        }
+    };
+}
+
+macro_rules! kschema {
+    ($( $T:ident $root:ident [$($tcc:tt)*] id [$($idcc:tt)*] next $N:ident ;)*) => {
+        $( kobj!($T [$($tcc)*] [$($idcc)*] $N); )*
+
+        const TYPES: &[TypeM] = &[
+            $( TypeM { name: stringify!($T), pol: pol!($($tcc)*), id_pol: pol!($($idcc)*), next: stringify!($N), root: stringify!($root) } ),*
+        ];
+
+        #[derive(Interface)]
+        #[graphql(field(name = "id", ty = "i32"), field(name = "plain", ty = "i32"), field(name = "fpriv", ty = "i32"))]
+        enum Node { $( $T($T) ),* }
+        kabs!(Node mk_node NODE [$($T),*]);
+
+        struct Query;
+        #[Object]
+        impl Query {
+            $(
+                async fn $root(&self, ctx: &Context<'_>, seed: i32) -> $T {
+                    tr(ctx, "Query", stringify!($root), false);
+                    $T { h: mix(seed as u64, 100), abs: false }
+                }
+            )*
+            async fn node(&self, ctx: &Context<'_>, seed: i32) -> Node {
+                tr(ctx, "Query", "node", false);
+                mk_node(mix(seed as u64, 101))
+            }
+            async fn nodes(&self, ctx: &Context<'_>, seed: i32) -> Vec<Node> {
+                let full = tr(ctx, "Query", "nodes", false);
+                let h = mix(seed as u64, 102);
+                (0..len(full, h)).map(|k| mk_node(mix(h, k))).collect()
+            }
+            async fn named(&self, ctx: &Context<'_>, seed: i32) -> Named {
+                tr(ctx, "Query", "named", false);
+                mk_named(mix(seed as u64, 103))
+            }
+            async fn item(&self, ctx: &Context<'_>, seed: i32) -> Item {
+                tr(ctx, "Query", "item", false);
+                mk_item(mix(seed as u64, 104))
+            }
+            async fn items(&self, ctx: &Context<'_>, seed: i32) -> Vec<Item> {
+                let full = tr(ctx, "Query", "items", false);
+                let h = mix(seed as u64, 105);
+                (0..len(full, h)).map(|k| mk_item(mix(h, k))).collect()
+            }
+            async fn thing(&self, ctx: &Context<'_>, seed: i32) -> Option<Thing> {
+                let full = tr(ctx, "Query", "thing", false);
+                let h = mix(seed as u64, 106);
+                if null(full, h) { None } else { Some(mk_thing(h)) }
+            }
+            #[graphql(cache_control(private))]
+            async fn pnode(&self, ctx: &Context<'_>, seed: i32) -> Node {
+                tr(ctx, "Query", "pnode", false);
+                mk_node(mix(seed as u64, 107))
+            }
+            #[graphql(cache_control(max_age = 10))]
+            async fn cnode(&self, ctx: &Context<'_>, seed: i32) -> Node {
+                tr(ctx, "Query", "cnode", false);
+                mk_node(mix(seed as u64, 108))
+            }
+            /// always the private, no-cache type T09 behind an interface-typed field
+            async fn np(&self, ctx: &Context<'_>) -> Node {
+                tr(ctx, "Query", "np", false);
+                Node::T09(T09 { h: 9, abs: true })
+            }
+            /// always T09 behind a union-typed field
+            async fn ip(&self, ctx: &Context<'_>) -> Item {
+                tr(ctx, "Query", "ip", false);
+                Item::T09(T09 { h: 9, abs: true })
+            }
+            /// always T13 (public/60, `id` private/5) behind an interface-typed field
+            async fn n13(&self, ctx: &Context<'_>) -> Named {
+                tr(ctx, "Query", "n13", false);
+                Named::T13(T13 { h: 13, abs: true })
+            }
+        }
+    };
+}
+
+kschema! {
+    T00 t00 []                      id []                       next T07;
+    T01 t01 [max_age = 60]          id []                       next T05;
+    T02 t02 [max_age = 5]           id [max_age = 60]           next T00;
+    T03 t03 [max_age = 1]           id []                       next T09;
+    T04 t04 [no_cache]              id []                       next T01;
+    T05 t05 [private]               id []                       next T02;
+    T06 t06 [private, max_age = 60] id []                       next T16;
+    T07 t07 [private, max_age = 5]  id [max_age = 5]            next T10;
+    T08 t08 [private, max_age = 1]  id []                       next T00;
+    T09 t09 [private, no_cache]     id []                       next T01;
+    T10 t10 []                      id [private]                next T11;
+    T11 t11 []                      id [no_cache]               next T12;
+    T12 t12 []                      id [max_age = 1]            next T13;
+    T13 t13 [max_age = 60]          id [private, max_age = 5]   next T14;
+    T14 t14 [private, max_age = 60] id [max_age = 5]            next T15;
+    T15 t15 [max_age = 5]           id [no_cache]               next T16;
+    T16 t16 []                      id [max_age = 60]           next T17;
+    T17 t17 [private]               id [private, no_cache]      next T03;
+}
+
+#[derive(Interface)]
+#[graphql(field(name = "id", ty = "i32"))]
+enum Named {
+    T00(T00),
+    T05(T05),
+    T09(T09),
+    T10(T10),
+    T13(T13),
+    T16(T16),
+}
+kabs!(Named mk_named NAMED [T00, T05, T09, T10, T13, T16]);
+
+#[derive(Union)]
+enum Item {
+    T00(T00),
+    T01(T01),
+    T02(T02),
+    T05(T05),
+    T06(T06),
+    T09(T09),
+    T11(T11),
+}
+kabs!(Item mk_item ITEM [T00, T01, T02, T05, T06, T09, T11]);
+
+#[derive(Union)]
+enum Thing {
+    T03(T03),
+    T04(T04),
+    T07(T07),
+    T08(T08),
+    T12(T12),
+    T17(T17),
+}
+kabs!(Thing mk_thing THING [T03, T04, T07, T08, T12, T17]);
+
+// ---------------------------------------------------------------------------------------------------------------
+// hand-written model of K (what a client can select where, and which declared policy belongs to it)
+
+#[derive(Clone, Copy, PartialEq, Eq, Debug)]
+enum Ty {
+    Query,
+    Obj(usize),
+    Node,
+    Named,
+    Item,
+    Thing,
+}
+impl Ty {
+    fn name(self) -> &'static str {
+        match self {
+            Ty::Query => "Query",
+            Ty::Obj(i) => TYPES[i].name,
+            Ty::Node => "Node",
+            Ty::Named => "Named",
+            Ty::Item => "Item",
+            Ty::Thing => "Thing",
+        }
+    }
+    fn is_object(self) -> bool {
+        matches!(self, Ty::Query | Ty::Obj(_))
+    }
+    fn is_interface(self) -> bool {
+        matches!(self, Ty::Node | Ty::Named)
+    }
+    /// concrete object types a value of this static type can have (indices into TYPES; Query = usize::MAX)
+    fn possible(self) -> Vec<usize> {
+        let of = |names: &[&str]| names.iter().map(|n| idx(n)).collect();
+        match self {
+            Ty::Query => vec![usize::MAX],
+            Ty::Obj(i) => vec![i],
+            Ty::Node => of(NODE),
+            Ty::Named => of(NAMED),
+            Ty::Item => of(ITEM),
+            Ty::Thing => of(THING),
+        }
+    }
+    fn type_pol(self) -> Pol {
+        match self {
+            Ty::Obj(i) => TYPES[i].pol,
+            _ => NONE,
+        }
+    }
+}
+fn idx(name: &str) -> usize {
+    TYPES.iter().position(|t| t.name == name).unwrap()
+}
+
+#[derive(Clone, Copy)]
+struct FieldM {
+    name: &'static str,
+    pol: Pol,
+    target: Option<Ty>,
+    /// takes the `seed` argument (root fields)
+    seeded: bool,
+}
+fn fm(name: &'static str, pol: Pol, target: Option<Ty>) -> FieldM {
+    FieldM { name, pol, target, seeded: false }
+}
+fn fields(ty: Ty) -> Vec<FieldM> {
+    match ty {
+        Ty::Obj(i) => {
+            let next = Ty::Obj(idx(TYPES[i].next));
+            vec![
+                fm("id", TYPES[i].id_pol, None),
+                fm("plain", NONE, None),
+                fm("f60", pol!(max_age = 60), None),
+                fm("f5", pol!(max_age = 5), None),
+                fm("fnc", pol!(no_cache), None),
+                fm("fpriv", pol!(private), None),
+                fm("fpriv30", pol!(private, max_age = 30), None),
+                fm("obj", NONE, Some(next)),
+                fm("objs", NONE, Some(next)),
+                fm("opt", NONE, Some(next)),
+                fm("pobj", pol!(private), Some(next)),
+                fm("node", NONE, Some(Ty::Node)),
+                fm("nodes", NONE, Some(Ty::Node)),
+                fm("cnode", pol!(max_age = 10), Some(Ty::Node)),
+                fm("named", NONE, Some(Ty::Named)),
+                fm("item", NONE, Some(Ty::Item)),
+                fm("items", NONE, Some(Ty::Item)),
+                fm("thing", NONE, Some(Ty::Thing)),
+            ]
+        }
+        // interface fields cannot carry a cache hint
+        Ty::Node => vec![fm("id", NONE, None), fm("plain", NONE, None), fm("fpriv", NONE, None)],
+        Ty::Named => vec![fm("id", NONE, None)],
+        Ty::Item | Ty::Thing => vec![],
+        Ty::Query => {
+            let mut v: Vec<FieldM> = TYPES.iter().enumerate().map(|(i, t)| FieldM { name: t.root, pol: NONE, target: Some(Ty::Obj(i)), seeded: true }).collect();
+            for (n, p, t) in [
+                ("node", NONE, Ty::Node),
+                ("nodes", NONE, Ty::Node),
+                ("named", NONE, Ty::Named),
+                ("item", NONE, Ty::Item),
+                ("items", NONE, Ty::Item),
+                ("thing", NONE, Ty::Thing),
+                ("pnode", pol!(private), Ty::Node),
+                ("cnode", pol!(max_age = 10), Ty::Node),
+            ] {
+                v.push(FieldM { name: n, pol: p, target: Some(t), seeded: true });
+            }
+            v.push(fm("np", NONE, Some(Ty::Node)));
+            v.push(fm("ip", NONE, Some(Ty::Item)));
+            v.push(fm("n13", NONE, Some(Ty::Named)));
+            v
+        }
+    }
+}
+/// declared policy of a field of a concrete object type, by names (for the trace)
+fn declared(ty: &str, field: &str) -> (Pol, Pol) {
+    let t = if ty == "Query" { Ty::Query } else { Ty::Obj(idx(ty)) };
+    let f = fields(t).into_iter().find(|f| f.name == field).unwrap_or_else(|| panic!("model has no field {}.{}", ty, field));
+    (t.type_pol(), f.pol)
+}
+
+// ---------------------------------------------------------------------------------------------------------------
+// documents
+
+#[derive(Clone, Debug)]
+enum Sel {
+    Typename,
+    Field { alias: Option<String>, f: &'static str, seed: Option<i32>, sub: Option<(Ty, Vec<Sel>)> },
+    Inline { on: Option<Ty>, sub: Vec<Sel> },
+    Spread(usize),
+}
+#[derive(Clone, Debug)]
+struct Frag {
+    on: Ty,
+    sub: Vec<Sel>,
+}
+struct Doc {
+    ops: Vec<(Option<String>, Vec<Sel>)>,
+    frags: Vec<Frag>,
+}
+
+fn print_sels(out: &mut String, sels: &[Sel]) {
+    out.push_str("{ ");
+    for s in sels {
+        match s {
+            Sel::Typename => out.push_str("__typename "),
+            Sel::Field { alias, f, seed, sub } => {
+                if let Some(a) = alias {
+                    out.push_str(a);
+                    out.push_str(": ");
+                }
+                out.push_str(f);
+                if let Some(k) = seed {
+                    out.push_str(&format!("(seed: {})", k));
+                }
+                out.push(' ');
+                if let Some((_, sub)) = sub {
+                    print_sels(out, sub);
+                }
+            }
+            Sel::Inline { on, sub } => {
+                out.push_str("... ");
+                if let Some(t) = on {
+                    out.push_str(&format!("on {} ", t.name()));
+                }
+                print_sels(out, sub);
+            }
+            Sel::Spread(i) => out.push_str(&format!("...F{} ", i)),
+        }
+    }
+    out.push_str("} ");
+}
+fn print_doc(d: &Doc) -> String {
+    let mut out = String::new();
+    for (name, sels) in &d.ops {
+        if let Some(n) = name {
+            out.push_str(&format!("query {} ", n));
+        }
+        print_sels(&mut out, sels);
+    }
+    for (i, f) in d.frags.iter().enumerate() {
+        out.push_str(&format!("fragment F{} on {} ", i, f.on.name()));
+        print_sels(&mut out, &f.sub);
+    }
+    out.trim_end().to_string()
+}
+
+#[derive(Clone, Copy)]
+struct Cfg {
+    /// interface- and union-typed fields and abstract type conditions may be used
+    abstract_types: bool,
+    /// fields may be selected directly on an interface-typed selection set (the construct of C20-F1)
+    iface_direct: bool,
+    /// a named fragment's type condition may differ from the static type it is spread in (the construct of C20-F2)
+    frag_retype: bool,
+    /// weight of named-fragment spreads among the selection kinds
+    w_spread: u32,
+    max_depth: usize,
+}
+
+struct G<'a> {
+    s: &'a mut dyn Src,
+    cfg: Cfg,
+    frags: Vec<Frag>,
+    aliases: usize,
+    /// one `seed` argument value per document, so that equal response keys always carry equal arguments
+    seed: i32,
+}
+
+fn overlaps(a: Ty, b: Ty) -> bool {
+    let pb = b.possible();
+    a.possible().iter().any(|x| pb.contains(x))
+}
+
+impl<'a> G<'a> {
+    fn field(&mut self, ty: Ty, depth: usize, want_link: bool) -> Option<Sel> {
+        let all = fields(ty);
+        let cands: Vec<&FieldM> = all
+            .iter()
+            .filter(|f| match f.target {
+                None => !want_link,
+                Some(t) => want_link && depth > 0 && (self.cfg.abstract_types || t.is_object()),
+            })
+            .collect();
+        if cands.is_empty() {
+            return None;
+        }
+        // `id` / `plain` (hint varies by type / no hint) and abstract targets are preferred, so that the binding hint
+        // is often one that sits behind an interface or union
+        let weights: Vec<u32> = cands
+            .iter()
+            .map(|f| match f.target {
+                None => if f.name == "id" || f.name == "plain" { 5 } else { 1 },
+                Some(t) => if t.is_object() { 1 } else { 2 },
+            })
+            .collect();
+        let f = *cands[self.s.weighted(&weights)];
+        let alias = if self.s.chance(1, 5) {
+            self.aliases += 1;
+            Some(format!("a{}", self.aliases))
+        } else {
+            None
+        };
+        let seed = if f.seeded { Some(self.seed) } else { None };
+        let sub = f.target.map(|t| (t, self.selset(t, depth - 1, 0)));
+        Some(Sel::Field { alias, f: f.name, seed, sub })
+    }
+
+    /// a type condition that may be spread inside a selection set of static type `ty`
+    fn condition(&mut self, ty: Ty) -> Ty {
+        if !self.cfg.abstract_types {
+            return ty;
+        }
+        let mut c: Vec<Ty> = vec![];
+        if ty.is_object() {
+            c.extend([ty, ty, ty]);
+            for a in [Ty::Node, Ty::Named] {
+                if overlaps(a, ty) {
+                    c.push(a);
+                }
+            }
+        } else {
+            // concrete members first (index 0 = simplest), then the abstract types that overlap
+            c.extend(ty.possible().into_iter().map(Ty::Obj));
+            let n = c.len();
+            for a in [Ty::Node, Ty::Named, Ty::Item, Ty::Thing] {
+                if overlaps(a, ty) {
+                    for _ in 0..(n / 6).max(1) {
+                        c.push(a);
+                    }
+                }
+            }
+        }
+        c[self.s.choose(c.len())]
+    }
+
+    fn selset(&mut self, ty: Ty, depth: usize, fd: usize) -> Vec<Sel> {
+        let mut out = vec![];
+        let direct_fields = ty.is_object() || (ty.is_interface() && self.cfg.iface_direct);
+        // an object-typed selection set always emits at least one real field of the object
+        if ty.is_object() {
+            let link = depth > 0 && self.s.chance(1, 2);
+            let f = self.field(ty, depth, link).or_else(|| self.field(ty, depth, !link)).unwrap();
+            out.push(f);
+        }
+        let extra = if ty.is_object() { self.s.choose(4) } else { 1 + self.s.choose(3) };
+        for _ in 0..extra {
+            let k = if fd >= 2 {
+                self.s.weighted(&[5, 4, 1])
+            } else {
+                self.s.weighted(&[5, 4, 1, 4, 1, self.cfg.w_spread])
+            };
+            let sel = match k {
+                0 if direct_fields => self.field(ty, depth, false),
+                1 if direct_fields => self.field(ty, depth, true),
+                0 | 1 | 2 => Some(Sel::Typename),
+                3 => {
+                    let on = self.condition(ty);
+                    Some(Sel::Inline { on: Some(on), sub: self.selset(on, depth, fd + 1) })
+                }
+                4 => Some(Sel::Inline { on: None, sub: self.selset(ty, depth, fd + 1) }),
+                _ => {
+                    // reuse a finished fragment that may be spread here, or define a new one
+                    let retype = self.cfg.abstract_types && self.cfg.frag_retype;
+                    let reusable: Vec<usize> = (0..self.frags.len()).filter(|i| overlaps(self.frags[*i].on, ty) && (retype || self.frags[*i].on == ty)).collect();
+                    if !reusable.is_empty() && (self.frags.len() >= 4 || self.s.bool()) {
+                        Some(Sel::Spread(reusable[self.s.choose(reusable.len())]))
+                    } else if self.frags.len() < 4 {
+                        let on = if retype { self.condition(ty) } else { ty };
+                        let sub = self.selset(on, depth.min(1), fd + 1);
+                        self.frags.push(Frag { on, sub });
+                        Some(Sel::Spread(self.frags.len() - 1))
+                    } else {
+                        None
+                    }
+                }
+            };
+            out.extend(sel);
+        }
+        if out.is_empty() {
+            out.push(Sel::Typename);
+        }
+        out
+    }
+}
+
+fn gen_doc(s: &mut dyn Src, cfg: Cfg, multi_op: bool) -> (Doc, Option<String>) {
+    let seed = s.choose(64) as i32;
+    let mut g = G { s, cfg, frags: vec![], aliases: 0, seed };
+    let depth = 1 + g.s.choose(cfg.max_depth);
+    let first = g.selset(Ty::Query, depth, 0);
+    let mut ops = vec![];
+    let mut opname = None;
+    if multi_op && g.s.chance(1, 6) {
+        let second = g.selset(Ty::Query, depth, 0);
+        // the executed operation is A; B is only validated
+        if g.s.bool() {
+            ops.push((Some("A".to_string()), first));
+            ops.push((Some("B".to_string()), second));
+        } else {
+            ops.push((Some("B".to_string()), second));
+            ops.push((Some("A".to_string()), first));
+        }
+        opname = Some("A".to_string());
+    } else if g.s.chance(1, 4) {
+        ops.push((Some("Q".to_string()), first));
+    } else {
+        ops.push((None, first));
+    }
+    (Doc { ops, frags: g.frags }, opname)
+}
+
+/// What the response policy would be under a static computation over the document (every operation, fragments
+/// at their spreads), with the quirks of the findings switched on or off:
+/// * C20-F1 on: policies are looked up at the static type of the enclosing selection set only, so a field selected
+///   on an interface contributes nothing; off: such a field contributes the type policy and the same-named field's
+///   policy of every object type implementing the interface.
+/// * C20-F2 on: the selection set of a named fragment is evaluated at the static type of the selection set it is
+///   spread in (its type condition is ignored; fields unknown there contribute nothing and lose the type below
+///   them); off: at its type condition.
+fn predict(d: &Doc, f1: bool, f2: bool) -> Pol {
+    fn walk(d: &Doc, sels: &[Sel], ty: Option<Ty>, f1: bool, f2: bool, acc: &mut Vec<Pol>) {
+        if let Some(t) = ty {
+            acc.push(t.type_pol());
+        }
+        for s in sels {
+            match s {
+                Sel::Typename => {}
+                Sel::Field { f, sub, .. } => {
+                    let found = ty.and_then(|t| fields(t).into_iter().find(|x| x.name == *f));
+                    if let Some(fm) = &found {
+                        acc.push(fm.pol);
+                    }
+                    if let (Some(t), false, true) = (ty, f1, found.is_some()) {
+                        if t.is_interface() {
+                            for p in t.possible() {
+                                acc.push(TYPES[p].pol);
+                                acc.extend(fields(Ty::Obj(p)).into_iter().find(|x| x.name == *f).map(|x| x.pol));
+                            }
+                        }
+                    }
+                    if let Some((_, sub)) = sub {
+                        walk(d, sub, found.and_then(|fm| fm.target), f1, f2, acc);
+                    }
+                }
+                Sel::Inline { on, sub } => walk(d, sub, on.or(ty), f1, f2, acc),
+                Sel::Spread(i) => walk(d, &d.frags[*i].sub, if f2 { ty } else { Some(d.frags[*i].on) }, f1, f2, acc),
+            }
+        }
+    }
+    let mut acc = vec![];
+    for (_, sels) in &d.ops {
+        walk(d, sels, Some(Ty::Query), f1, f2, &mut acc);
+    }
+    combine(&acc)
+}
+
+fn uses_abstract(d: &Doc) -> bool {
+    fn any(sels: &[Sel]) -> bool {
+        sels.iter().any(|s| match s {
+            Sel::Field { sub: Some((t, sub)), .. } => !t.is_object() || any(sub),
+            Sel::Inline { on, sub } => on.map(|t| !t.is_object()).unwrap_or(false) || any(sub),
+            _ => false,
+        })
+    }
+    d.ops.iter().any(|(_, s)| any(s)) || d.frags.iter().any(|f| !f.on.is_object() || any(&f.sub))
+}
+
+struct K {
+    schema: Schema<Query, EmptyMutation, EmptySubscription>,
+}
+
+/// run one document; `exact` additionally demands equality with the combination (object-only documents)
+fn doc_case(k: &K, open: [bool; 2], d: &Doc, opname: Option<String>, full: bool, exact: bool) -> Case {
+    let text = print_doc(d);
+    let trace = Arc::new(Mutex::new(vec![]));
+    let mut req = Request::new(text.clone()).data(World { full, trace: trace.clone() });
+    if let Some(n) = &opname {
+        req = req.operation_name(n.clone());
+    }
+    let resp = vcore::det::block_on(k.schema.execute(req));
+    let rendered = format!("{}{}  world={}", text, opname.as_ref().map(|n| format!("  operationName={}", n)).unwrap_or_default(), if full { "full" } else { "sparse" });
+    if !resp.errors.is_empty() {
+        return Case::fail(rendered, format!("harness: generated document was rejected: {:?}", resp.errors.iter().map(|e| &e.message).collect::<Vec<_>>()));
+    }
+    let actual = Pol { public: resp.cache_control.public, max_age: resp.cache_control.max_age };
+    let trace = trace.lock().unwrap().clone();
+    let mut contrib: Vec<(&str, &str)> = trace.iter().map(|t| (t.ty, t.field)).collect();
+    contrib.sort();
+    contrib.dedup();
+    let mut req_all = vec![];
+    let mut req_obj_paths = vec![];
+    for t in &trace {
+        let (tp, fp) = declared(t.ty, t.field);
+        req_all.extend([tp, fp]);
+        if !t.abs {
+            req_obj_paths.extend([tp, fp]);
+        }
+    }
+    let required = combine(&req_all);
+    let only_via_abstract = required != combine(&req_obj_paths);
+    let abstract_doc = uses_abstract(d);
+    let rendered = format!(
+        "{}  data-from={}  required={} actual={}",
+        rendered,
+        contrib.iter().map(|(t, f)| format!("{}.{}", t, f)).collect::<Vec<_>>().join(","),
+        required.show(),
+        actual.show()
+    );
+    let base = |c: Case| {
+        c.nontrivial(only_via_abstract || (exact && required != NONE))
+            .class_if(abstract_doc, "through-interface-or-union")
+            .class_if(only_via_abstract, "restrictive-hint-only-behind-abstract-field")
+            .class_if(!required.public, "required-private")
+            .class_if(required.max_age == -1, "required-no-cache")
+            .class_if(required.max_age > 0, "required-max-age")
+            .class_if(required == NONE, "required-none")
+            .class_if(exact, "object-only")
+            .class_if(d.ops.len() > 1, "two-operations")
+            .class_if(!d.frags.is_empty(), "named-fragments")
+    };
+    if !safe(actual, &req_all) {
+        // is this exactly what the open findings predict? (smallest set of findings first)
+        for (f1, f2) in [(true, false), (false, true), (true, true)] {
+            if (f1 && !open[0]) || (f2 && !open[1]) {
+                continue;
+            }
+            if actual == predict(d, f1, f2) {
+                let ids: Vec<String> = [(f1, "C20-F1"), (f2, "C20-F2")].iter().filter(|x| x.0).map(|x| x.1.to_string()).collect();
+                return base(Case::known(rendered, ids)).class_if(f1, "known-C20-F1").class_if(f2, "known-C20-F2");
+            }
+        }
+        return base(Case::fail(rendered, format!("response policy {} is looser than the data it contains (required at least {})", actual.show(), required.show())));
+    }
+    if exact && actual != required {
+        return base(Case::fail(rendered, format!("object-only selection: response policy {} differs from the combination {}", actual.show(), required.show())));
+    }
+    base(Case::pass(rendered))
+}
+
+// ---------------------------------------------------------------------------------------------------------------
+// combination laws
+
+fn cc(p: Pol) -> CacheControl {
+    CacheControl { public: p.public, max_age: p.max_age }
+}
+fn batch(ps: &[Pol]) -> Pol {
+    let b = BatchResponse::Batch(ps.iter().map(|p| Response::new(async_graphql::Value::Null).cache_control(cc(*p))).collect());
+    let c = b.cache_control();
+    Pol { public: c.public, max_age: c.max_age }
+}
+
+fn law_case(ps: &[Pol]) -> Case {
+    let text = format!("combine[{}]", ps.iter().map(|p| p.show()).collect::<Vec<_>>().join(", "));
+    let whole = batch(ps);
+    let nt = ps.iter().any(|p| *p != ps[0]);
+    if !safe(whole, ps) {
+        return Case::fail(text, format!("combined policy {} is looser than a member", whole.show()));
+    }
+    // every permutation
+    let n = ps.len();
+    let mut order: Vec<usize> = (0..n).collect();
+    let mut perms = vec![];
+    permute(&mut order, 0, &mut perms);
+    for p in &perms {
+        let v: Vec<Pol> = p.iter().map(|i| ps[*i]).collect();
+        let r = batch(&v);
+        if r != whole {
+            return Case::fail(text, format!("order dependence: [{}] -> {} but original order -> {}", v.iter().map(|p| p.show()).collect::<Vec<_>>().join(", "), r.show(), whole.show()));
+        }
+        // every regrouping into a prefix combined first and fed back as one response, and likewise a suffix
+        for cut in 1..n {
+            let left = batch(&v[..cut]);
+            let right = batch(&v[cut..]);
+            let mut a = vec![left];
+            a.extend_from_slice(&v[cut..]);
+            let mut b = v[..cut].to_vec();
+            b.push(right);
+            for (how, g) in [("prefix", batch(&a)), ("suffix", batch(&b)), ("both", batch(&[left, right]))] {
+                if g != whole {
+                    return Case::fail(text, format!("grouping dependence ({} of [{}] cut at {}): {} vs {}", how, v.iter().map(|p| p.show()).collect::<Vec<_>>().join(", "), cut, g.show(), whole.show()));
+                }
+            }
+        }
+    }
+    if n == 1 && BatchResponse::Single(Response::new(async_graphql::Value::Null).cache_control(cc(ps[0]))).cache_control() != cc(ps[0]) {
+        return Case::fail(text, "single response: cache_control() differs from the response's policy");
+    }
+    Case::pass(text).nontrivial(nt).class(format!("law-{}", n))
+}
+fn permute(a: &mut Vec<usize>, k: usize, out: &mut Vec<Vec<usize>>) {
+    if k == a.len() {
+        out.push(a.clone());
+        return;
+    }
+    for i in k..a.len() {
+        a.swap(k, i);
+        permute(a, k + 1, out);
+        a.swap(k, i);
+    }
+}
+
+pub fn run(ctx: &mut Ctx) {
+    ctx.rule = "type-directed random documents over schema K (18 object types with type/field hints, 2 interfaces, 2 unions; aliases, inline \
+                fragments with/without condition, named fragments, optional second operation), executed against a random data world; \
+                required policy = combination of the declared policies of the (object type, field) pairs whose resolver produced data; \
+                non-trivial = the required policy is tighter than what object-only paths alone require (a restrictive hint is reached only \
+                through an interface/union field), or, in the object-only stream, any hint applies; laws: all 1-, 2-, 3-tuples (4-tuples in \
+                thorough) over {public,private}x{0,1,5,60,-1}; distinct by rendered case"
+        .into();
+    ctx.assume("an object contributes data iff at least one of its non-__typename fields is in the response; objects that only show __typename or {} are don't-care");
+    ctx.assume("a field contributes data whenever its resolver ran (null and [] are data of the field, not of the target type)");
+    ctx.assume("exactness is checked for single-operation documents without @skip/@include over worlds without nulls / empty lists, where 'selected' and 'contains data' coincide");
+    ctx.assume("max_age 0 means 'no hint' (the statement speaks of positive max-ages); hints with both no_cache and max_age are not used");
+    ctx.assume("interface fields cannot declare a cache hint; the policy that counts is the one declared on the concrete object's field");
+    let k = K { schema: Schema::build(Query, EmptyMutation, EmptySubscription).finish() };
+    let open = [ctx.open("C20-F1"), ctx.open("C20-F2")];
+    ctx.note("schema_K", json!(TYPES.iter().map(|t| format!("{} type={} id={} next={}", t.name, t.pol.show(), t.id_pol.show(), t.next)).collect::<Vec<_>>()));
+
+    // (c) laws, bounded-exhaustive
+    let t0 = Instant::now();
+    let dom: Vec<Pol> = [true, false].iter().flat_map(|p| [0, 1, 5, 60, -1].iter().map(move |m| Pol { public: *p, max_age: *m })).collect();
+    let arity = ctx.tier.pick(3, 4);
+    let mut count = 0u64;
+    for n in 1..=arity {
+        let mut ix = vec![0usize; n];
+        loop {
+            let ps: Vec<Pol> = ix.iter().map(|i| dom[*i]).collect();
+            count += 1;
+            if ctx.check_case("laws", law_case(&ps), json!({"policies": ps.iter().map(|p| p.show()).collect::<Vec<_>>()})) {
+                return;
+            }
+            let mut p = n;
+            while p > 0 {
+                p -= 1;
+                ix[p] += 1;
+                if ix[p] < dom.len() {
+                    break;
+                }
+                ix[p] = 0;
+                if p == 0 {
+                    p = usize::MAX;
+                    break;
+                }
+            }
+            if p == usize::MAX {
+                break;
+            }
+        }
+    }
+    ctx.enumerated("laws", count, true, t0);
+    ctx.exhaustive = Some(true);
+
+    // explicit witnesses
+    let field = |f: &'static str, sub: Option<(Ty, Vec<Sel>)>| Sel::Field { alias: None, f, seed: None, sub };
+    let single = |sels: Vec<Sel>| Doc { ops: vec![(None, sels)], frags: vec![] };
+    let t09 = Ty::Obj(idx("T09"));
+    let t13 = Ty::Obj(idx("T13"));
+    let witnesses: Vec<(&str, Doc)> = vec![
+        // typed inline fragments make the static computation see the object type
+        ("typed-fragment-behind-interface", single(vec![field("np", Some((Ty::Node, vec![Sel::Inline { on: Some(t09), sub: vec![field("id", None)] }])))])),
+        ("typed-fragment-behind-union", single(vec![field("ip", Some((Ty::Item, vec![Sel::Inline { on: Some(t09), sub: vec![field("plain", None)] }])))])),
+        // C20-F1 witnesses: private/no-cache object type read through the interface's own field; field-level hint likewise
+        ("F1-type-policy-behind-interface", single(vec![field("np", Some((Ty::Node, vec![field("id", None)])))])),
+        ("F1-type-policy-behind-union", single(vec![field("ip", Some((Ty::Item, vec![Sel::Inline { on: Some(Ty::Node), sub: vec![field("plain", None)] }])))])),
+        ("F1-field-policy-behind-interface", single(vec![field("n13", Some((Ty::Named, vec![Sel::Inline { on: Some(t13), sub: vec![field("plain", None)] }, field("id", None)])))])),
+        // C20-F2 witnesses: the same selections as the first two, written as named fragments
+        ("F2-named-fragment-behind-union", Doc { ops: vec![(None, vec![field("ip", Some((Ty::Item, vec![Sel::Spread(0)])))])], frags: vec![Frag { on: t09, sub: vec![field("plain", None)] }] }),
+        ("F2-named-fragment-behind-interface", Doc { ops: vec![(None, vec![field("n13", Some((Ty::Named, vec![Sel::Spread(0)])))])], frags: vec![Frag { on: t13, sub: vec![field("fnc", None)] }] }),
+    ];
+    for (name, d) in &witnesses {
+        let c = doc_case(&k, open, d, None, true, false);
+        if ctx.check_case("witness", c, json!({"witness": name})) {
+            return;
+        }
+    }
+
+    let n = ctx.tier.pick(60_000, 1_500_000);
+    ctx.floor("restrictive-hint-only-behind-abstract-field", 2000);
+    ctx.floor("through-interface-or-union", 20_000);
+    ctx.floor("object-only", 50_000);
+    ctx.floor("required-private", 2000);
+    ctx.floor("required-no-cache", 2000);
+    ctx.floor("required-max-age", 1000);
+    ctx.floor("required-none", 200);
+    ctx.floor("two-operations", 300);
+    ctx.floor("named-fragments", 1000);
+
+    ctx.stream("object-only-exact", n, 160, |s| {
+        let (d, op) = gen_doc(s, Cfg { abstract_types: false, iface_direct: false, frag_retype: false, w_spread: 2, max_depth: 3 }, false);
+        doc_case(&k, open, &d, op, true, true)
+    });
+    // main search: the constructs of the open findings are switched off in the generator
+    for (i, id) in ["C20-F1", "C20-F2"].iter().enumerate() {
+        if open[i] {
+            ctx.excluded(id);
+        }
+    }
+    let main = Cfg { abstract_types: true, iface_direct: !open[0], frag_retype: !open[1], w_spread: 2, max_depth: 3 };
+    ctx.stream("mixed-safety", n, 200, |s| {
+        let full = s.chance(1, 3);
+        let (d, op) = gen_doc(s, main, true);
+        doc_case(&k, open, &d, op, full, false)
+    });
+    // probes: one construct each switched on again (fields selected directly on interface-typed selection sets;
+    // named fragments whose type condition differs from the static type they are spread in)
+    ctx.stream("f1-probe", n / 10, 200, |s| {
+        let full = s.chance(1, 3);
+        let (d, op) = gen_doc(s, Cfg { iface_direct: true, max_depth: 2, ..main }, true);
+        doc_case(&k, open, &d, op, full, false).class("f1-probe")
+    });
+    ctx.stream("f2-probe", n / 10, 200, |s| {
+        let full = s.chance(1, 3);
+        let (d, op) = gen_doc(s, Cfg { frag_retype: true, w_spread: 8, max_depth: 2, ..main }, true);
+        doc_case(&k, open, &d, op, full, false).class("f2-probe")
+    });
 }
